@@ -194,6 +194,73 @@ def eval_long_history(case):
     return Eval(V, nontrivial=True, transitions=n)
 
 
+# ---------------------------------------------------------------------------
+# "the recorded messages": what `list` searches with a connection selected and with none selected must be the same
+# record, whatever the lines were - also lines that are messages the tool cannot take in (a delete_id for an id created
+# before the log began, a message newer than the protocol description, one argument too many)
+
+VIEW_LINES = {
+    'greg': '  -> wl_display@1.get_registry(new id wl_registry@2)',
+    'sync': '  -> wl_display@1.sync(new id wl_callback@3)',
+    'done': ' wl_callback@3.done(7)',
+    'del3': ' wl_display@1.delete_id(3)',
+    'del_unknown': ' wl_display@1.delete_id(88)',
+    'newer_message': '  -> wl_display@1.frobnicate(1)',
+    'extra_argument': '  -> wl_display@1.sync(new id wl_callback@9, 5)',
+    'orphan': '  -> zz_q@77.foo(1)',
+    'chatter': None,
+}
+
+
+def eval_views(case):
+    V = []
+    try:
+        s = sut.Session()
+        for n, (c, k) in enumerate(case['lines']):
+            body = VIEW_LINES[k]
+            s.feed_line('starting up' if body is None else '[%d.%03d] <%s>%s' % (1000, n, c, body))
+        names = [cl['name'] for cl in map(outparse.connection_line, s.cmd('connection')[0]) if cl]
+        counts_listed = {cl['name']: cl['messages'] for cl in map(outparse.connection_line, s.cmd('connection')[0]) if cl}
+
+        def listing(what):
+            o, _ = s.cmd('list ' + what)
+            cls = [outparse.classify(x) for x in o]
+            msgs = [x for x, (c, _) in zip(o, cls) if c == 'message']
+            cnt = [r for c, r in cls if c == 'count']
+            none_of = [r for c, r in cls if c == 'none_of']
+            total = (cnt[0]['matched'] + cnt[0]['didnt'] + cnt[0]['notchecked']) if cnt else (none_of[0]['n'] if none_of else 0)
+            return msgs, total
+        all_msgs, all_total = listing('*')
+        per = {}
+        for nm in names:
+            s.cmd('connection ' + nm)
+            per[nm] = listing('*')
+        s.cmd('connection all')
+        union = sorted(x for nm in names for x in per[nm][0])
+        d = {'all_connections_view': all_msgs, 'per_connection_views': {nm: per[nm][0] for nm in names}}
+        if union != sorted(all_msgs):
+            V.append(Violation('list.views_disagree', case, d))
+        elif sum(per[nm][1] for nm in names) != all_total:
+            V.append(Violation('list.view_counts_disagree', case, {'all': all_total, 'per_connection': {nm: per[nm][1] for nm in names}}))
+        elif any(counts_listed[nm] != per[nm][1] for nm in names):
+            V.append(Violation('list.connection_count_disagrees', case, {'connection_listing': counts_listed,
+                                                                         'list_totals': {nm: per[nm][1] for nm in names}}))
+    except Exception:
+        V.append(sut.exc_violation(case))
+    kinds = {k for _, k in case['lines']}
+    return Eval(V, outcome=[sorted(kinds), len(V)], nontrivial=bool(kinds & {'del_unknown', 'newer_message', 'extra_argument', 'orphan'}),
+                transitions=len(case['lines']) + 4)
+
+
+def gen_views(tier):
+    import itertools
+    n = 3 if tier == 'quick' else 4
+    alphabet = [(c, k) for c in ('1', '2') for k in VIEW_LINES if not (c == '2' and k in ('done', 'del3', 'chatter'))]
+    for L in range(1, n + 1):
+        for t in itertools.product(alphabet, repeat=L):
+            yield {'lines': [list(x) for x in t]}
+
+
 def gen_cases(tier):
     matchers = ['absent', '*', '!', 'bad'] + [list(m) for m in (MATCHERS[:9] if tier == 'quick' else MATCHERS)]
     caps = ['absent', 0, 1, 2, 'k-1', 'k', 'k+1', 99] + ([3, 7] if tier != 'quick' else [])
@@ -215,6 +282,8 @@ def run(run, tier, seed):
     res = explore.prod(lambda: iter([{'messages': 70000 if tier == 'quick' else 300000}]), eval_long_history, workers=1,
                        bound={'messages': 70000 if tier == 'quick' else 300000})
     run.add_part('long_history', res)
+    res = explore.prod(lambda: gen_views(tier), eval_views, seed=seed, bound={'lines': 3 if tier == 'quick' else 4, 'line_kinds': list(VIEW_LINES)})
+    run.add_part('views_of_the_record', res)
     run.rule = ('histories {0,1,12,universe messages} x current filter x selected connection x matcher x cap; each query '
                 'issued three times around a different query; non-trivial = a cap >= 1 on a non-empty history')
     run.bound = res.bound
@@ -227,4 +296,6 @@ def replay(case):
     sut.ensure_protocols()
     if 'messages' in case:
         return eval_long_history(case).viols
+    if 'lines' in case:
+        return eval_views(case).viols
     return evaluate(case).viols
